@@ -83,6 +83,34 @@ thread_local! {
     static AUDIT: std::cell::Cell<bool> = std::cell::Cell::new(std::env::var("HDMC_DET_AUDIT").is_ok());
 }
 
+thread_local! {
+    /// One paused tokio runtime per worker thread, entered for the life of the thread. Nothing runs
+    /// *on* it: the explorers poll every task themselves. It exists so that library code which
+    /// creates tokio timers finds a time driver (instead of panicking with "no reactor running",
+    /// which would be a harness artefact, not a defect); the pool engine moves its clock with `Tick`.
+    static VIRTUAL_RT: &'static tokio::runtime::Runtime = {
+        let rt: &'static tokio::runtime::Runtime = Box::leak(Box::new(
+            tokio::runtime::Builder::new_current_thread().enable_time().start_paused(true).build().expect("tokio runtime"),
+        ));
+        std::mem::forget(rt.enter());
+        rt
+    };
+}
+
+/// Make sure this thread is inside the virtual-time runtime context.
+pub fn enter_virtual_runtime() {
+    VIRTUAL_RT.with(|_| ());
+}
+
+/// Move the virtual tokio clock (fires timers, which wake their tasks through the recorded wakers).
+pub fn advance_virtual_time(d: std::time::Duration) {
+    VIRTUAL_RT.with(|rt| {
+        rt.block_on(async move {
+            tokio::time::advance(d).await;
+        })
+    });
+}
+
 pub struct Task {
     pub name: String,
     fut: Option<BoxFut>,
@@ -137,6 +165,9 @@ pub struct Sched {
 
 impl Sched {
     pub fn new(schedule: Vec<usize>) -> Sched {
+        if tokio::runtime::Handle::try_current().is_err() {
+            enter_virtual_runtime();
+        }
         hooks::capture_spawns(true);
         let _ = hooks::take_spawned();
         Sched {
